@@ -158,6 +158,18 @@ def appendRangeFwd (cfg : Cfg) (c : Nat) (strong : Bool) (srcs : List (Src α)) 
     uninitGen cfg v.data v.size 0 srcs >>= fun _ =>
     setSize c (v.size + srcs.length) >>= fun _ => pure v.size
 
+/-- append (const small_vector<T, I>&) (hpp:5815): append (other.begin (), other.end ()) -/
+def appendOther (cfg : Cfg) (c o : Nat) : M α Unit :=
+  getV o >>= fun ov => appendRangeFwd cfg c true (srcsCopy ov.data 0 ov.size) >>= fun _ => pure ()
+
+/-- append (small_vector<T, I>&&) (hpp:5826): move iterators only when relocation may move (so that a throw leaves the
+    source intact), then other.clear () -/
+def appendOtherMove (cfg : Cfg) (c o : Nat) : M α Unit :=
+  getV o >>= fun ov =>
+  appendRangeFwd cfg c true
+    (if relocateWithMove cfg.policy then srcsMove ov.data 0 ov.size else srcsCopy ov.data 0 ov.size) >>= fun _ =>
+  eraseAll cfg o
+
 /-- append_range, input iterators (hpp:3715-3750): one append_element per position; stream `sid` logs deref / incr -/
 def appendRangeInputLoop (cfg : Cfg) (c : Nat) (strong : Bool) (orig sid : Nat) : (p : Nat) → List α → M α Unit
   | _, [] => pure ()
